@@ -15,7 +15,9 @@ META = {
     'less (R-closure); leaf bookkeeping; normalisation of the target '
     'segment and of each cell edge, constant-axis equality, two-sided '
     'containment chain, pairwise coincidence test, descent, unique vertex '
-    'lookup (R-contain).',
+    'lookup (R-contain); point comparisons are tolerance based with '
+    'math.isclose and tolerances far below the smallest admitted segment '
+    '(R-tolerance).',
     'checker_cmd': 'python3-vt -m stbem_static C16 --tier <tier>',
     'trusted_base': ['CPython ast', 'NumPy >= 2 scalar-conversion rule '
                      '(only 0-dimensional arrays convert to Python '
